@@ -46,15 +46,33 @@ def configs(tier):
                                         ("step_dt_tag", (), (), {"disable_target": ["t0"]})]
                             if nk > 1 and nt > 1:
                                 dis += [("dvdt", (1,), (1,), {}), ("step_both", (), (), {"disable_vary": ["v1"], "disable_target": [0]})]
+                            if nk > 1:
+                                # a call sequence: steps, then knob 0 is disabled and re-tuned by hand, then the call under test
+                                dis += [("seq_tune", (), (), {})]
+                            if nk > 2:
+                                # names / tags of which one is a prefix of another: the longer one disabled persistently, the shorter
+                                # one for one call only
+                                dis += [("prefix_name", (1,), (), {"disable_vary_name": ["k1"]}), ("prefix_tag", (1,), (), {"disable_vary": ["v1"]})]
+                            if nt > 2:
+                                dis += [("prefix_ttag", (), (1,), {"disable_target": ["t1"]})]
                             for dname, dv, dt, stepkw in dis:
                                 calls = [("step", 1), ("step", 4)] if tier == "quick" else [("step", 1), ("step", 3), ("step", 8)]
-                                if not stepkw:
+                                if not stepkw and dname != "seq_tune":
+                                    # (a failing solve() restores iteration 0, which legitimately undoes a knob the user re-tuned by
+                                    # hand after iteration 0; the sequence case is therefore judged on step() calls)
                                     calls.append(("solve", None))
                                 for call in calls:
                                     for br in ((False,) if tier == "quick" else (False, True)):
-                                        yield {"fam": fam, "x0": x0, "limits": lim, "max_step": ms, "kw": kw, "tw": None, "tol": 1e-9,
-                                               "tshift": tshift, "dv": dv, "dt": dt, "stepkw": stepkw, "call": call, "broyden": br,
-                                               "nsm": 6, "names": (lname, mname, dname)}
+                                        spec = {"fam": fam, "x0": x0, "limits": lim, "max_step": ms, "kw": kw, "tw": None, "tol": 1e-9,
+                                                "tshift": tshift, "dv": dv, "dt": dt, "stepkw": stepkw, "call": call, "broyden": br,
+                                                "nsm": 6, "names": (lname, mname, dname)}
+                                        if dname == "seq_tune":
+                                            spec["pre_seq"] = True
+                                        if dname.startswith("prefix"):
+                                            spec["knob_names"] = ["k1", "k10", "k2", "k3"][:nk]
+                                            spec["vary_tags"] = ["v1", "v10", "v2", "v3"][:nk]
+                                            spec["target_tags"] = ["t1", "t10", "t2", "t3", "t4"][:nt]
+                                        yield spec
 
 
 def issue(spec, what):
@@ -78,11 +96,13 @@ def do_call(p, spec):
     return exc
 
 
-def idx_of(sel, n, prefix):
+def idx_of(sel, n, prefix, names=None):
     out = set()
     for s in sel or ():
         if isinstance(s, int):
             out.add(s)
+        elif names is not None:
+            out.add(names.index(s))
         else:
             out.add(int(s.lstrip(prefix)))
     return out
@@ -93,6 +113,16 @@ def run_case(spec):
     p = O.Problem(spec)
     nk, nt = p.nk, p.nt
     unit = spec["kw"] is None
+    if spec.get("pre_seq"):
+        try:
+            p.opt.step(2)
+        except Exception:  # noqa
+            pass
+        p.opt.disable(vary=[0])
+        v = dict.__getitem__(p.knobs, p.kn[0]) + 0.0625
+        if p.limits is not None and not (p.limits[0][0] <= v <= p.limits[0][1]):
+            v = 0.5 * (p.limits[0][0] + p.limits[0][1])
+        p.knobs[p.kn[0]] = v
     vflags0, tflags0 = p.vary_flags(), p.target_flags()
     k_before = p.knob_values()
     nrows0 = len(p.log_rows())
@@ -112,7 +142,7 @@ def run_case(spec):
                     return out, exc
     # ---- max_step between consecutive Jacobian steps
     if p.max_step is not None:
-        for r in range(max(1, nrows0), len(rows)):
+        for r in range(max(1, nrows0 + (1 if spec.get("pre_seq") else 0)), len(rows)):
             if rows[r]["alpha"] is None or rows[r]["alpha"] < 0:
                 continue
             for i in range(nk):
@@ -126,9 +156,9 @@ def run_case(spec):
                                            f"({rows[r - 1]['knobs'][i]!r} -> {rows[r]['knobs'][i]!r})"))
                     return out, exc
     # ---- disabled knobs never change
-    dis_v = set(spec["dv"]) | idx_of(spec["stepkw"].get("disable_vary"), nk, "v") | idx_of(spec["stepkw"].get("disable_vary_name"), nk, "k")
+    dis_v = ({0} if spec.get("pre_seq") else set()) | set(spec["dv"]) | idx_of(spec["stepkw"].get("disable_vary"), nk, "v", p.vtags) | idx_of(spec["stepkw"].get("disable_vary_name"), nk, "k", p.kn)
     for i in sorted(dis_v):
-        vals = [v for (key, v) in p.knobs.writes if key == f"k{i}"]
+        vals = [v for (key, v) in p.knobs.writes if key == p.kn[i]]
         changed = [v for v in vals if v != k_before[i]]
         if changed:
             out.append(issue(spec, f"disabled knob k{i} was written with {changed[0]!r} (value before the call {k_before[i]!r})"))
@@ -150,7 +180,7 @@ def run_case(spec):
         out.append(issue(spec, f"step({spec['stepkw']}) raised TypeError: {exc}"))
         return out, exc
     # ---- a disabled target has no influence: differential twin
-    dis_t = set(spec["dt"]) | idx_of(spec["stepkw"].get("disable_target"), nt, "t")
+    dis_t = set(spec["dt"]) | idx_of(spec["stepkw"].get("disable_target"), nt, "t", p.ttags)
     for j in sorted(dis_t):
         alt = (j, lambda k, j=j: 7.0 * k[0] - 3.0 + (k[-1] + 1.0) ** 2 + j, 11.0)
         q = O.Problem(spec, alt_target=alt)
